@@ -53,6 +53,7 @@ func (t *fnTrans) ownAdd(x string, d int, cond string) {
 // paramMode: how a *Message parameter of fn is passed: "takes", "cond" (taken iff the
 // error result is nil), "borrows".
 func (g *Gen) paramMode(fn *ssa.Function, name string, idx int) string {
+	name = g.contractName(g.fnKey(fn), name)
 	if fc := g.contractOf(fn); fc != nil {
 		if fc.takes[name] {
 			return "takes"
@@ -187,7 +188,7 @@ func (t *fnTrans) ownEntry() {
 				// exclusively the caller's -- unless the function's contract says
 				// `accepts_shared m` (raw BUS forwarding: a bridge may Clone and re-send), in
 				// which case every Header/Body edit needs a MakeUnique first (own.write_shared).
-				if fc := t.g.contractOf(t.fn); fc == nil || !fc.acceptsShared[p.Name()] {
+				if fc := t.g.contractOf(t.fn); fc == nil || !fc.acceptsShared[t.g.contractName(t.key, p.Name())] {
 					t.assume(not(t.sharedGet(t.val(p))))
 				}
 			}
